@@ -49,6 +49,29 @@ for d in sorted(glob.glob(os.path.join(HERE, "seeded", "*", "meta.json"))):
     needs = (m.get("needs") or m.get("summary") or "")[:160].replace("|", "\\|").replace("\n", " ")
     print(f"| {sid} | {m.get('property')} | {needs} | {r.get('baseline_tests','?')} | {r.get('demo_clean','-')}/{r.get('demo_mutated','-')} | {'; '.join(verdicts)} |")
 
+section("controls")
+cres = {}
+p = os.path.join(HERE, "controls", "RESULTS.json")
+if os.path.exists(p):
+    cres = {r["id"]: r for r in json.load(open(p))}
+print("| harmless rewrite | kind | what it changes | demo clean/changed | check verdicts |")
+print("|---|---|---|---|---|")
+for d in sorted(glob.glob(os.path.join(HERE, "controls", "*", "meta.json"))):
+    sid = os.path.basename(os.path.dirname(d))
+    m = json.load(open(d))
+    r = cres.get(sid, {})
+    verdicts = []
+    for k, v in r.get("checks", {}).items():
+        line = v.get("line", "")
+        if line.startswith("VIOLATION"):
+            verdicts.append(f"{k}: VIOLATION" + (" (no-failing-input-found)" if "no-failing-input-found" in line else " with replay"))
+        elif line.startswith("OK"):
+            verdicts.append(f"{k}: OK")
+        else:
+            verdicts.append(f"{k}: {line[:40]}")
+    what = (m.get("summary") or "")[:200].replace("|", "\\|").replace("\n", " ")
+    print(f"| {sid} | {m.get('kind','')} | {what} | {r.get('demo_clean','-')}/{r.get('demo_mutated','-')} | {'; '.join(verdicts)} |")
+
 section("fixed")
 kf = json.load(open(os.path.join(HERE, "known_findings.json")))
 print("| id | property (also) | /repo commit | subject | failing input before the repair |")
